@@ -18,7 +18,10 @@ use serde_json::{json, Value};
 use tendermint::Time;
 use tokio::sync::oneshot;
 
+use crate::recstore::{Point, RecStore};
 use crate::session::settle;
+
+type SStore = RecStore<InMemoryStore>;
 
 type Responder = oneshot::Sender<Result<Vec<ExtendedHeader>, lumina_node::node::P2pError>>;
 const DELTA: u64 = 100; // seconds between blocks
@@ -30,21 +33,21 @@ fn ranges_json(r: &lumina_node::block_ranges::BlockRanges) -> Value {
 struct World {
     a: Vec<ExtendedHeader>,
     f: Vec<ExtendedHeader>,
-    store: Arc<InMemoryStore>,
+    store: Arc<SStore>,
 }
 
 impl World {
     fn a(&self, h: u64) -> ExtendedHeader {
         self.a[(h - 1) as usize].clone()
     }
-    async fn snapshot(&self, syncer: Option<&VSyncer<InMemoryStore>>) -> Value {
-        let stored = self.store.get_stored_header_ranges().await.unwrap();
-        let pruned = self.store.get_pruned_ranges().await.unwrap();
-        let sampled = self.store.get_sampled_ranges().await.unwrap();
+    async fn snapshot(&self, syncer: Option<&VSyncer<SStore>>) -> Value {
+        let stored = self.store.inner.get_stored_header_ranges().await.unwrap();
+        let pruned = self.store.inner.get_pruned_ranges().await.unwrap();
+        let sampled = self.store.inner.get_sampled_ranges().await.unwrap();
         let mut foreign = vec![];
         for r in stored.as_ref() {
             for h in r.clone() {
-                let x = self.store.get_by_height(h).await.unwrap();
+                let x = self.store.inner.get_by_height(h).await.unwrap();
                 if (h as usize) > self.a.len() || x.hash() != self.a[(h - 1) as usize].hash() {
                     foreign.push(h);
                 }
@@ -84,13 +87,8 @@ pub fn record(args: &Args) {
             // ---- world
             let now = Time::now();
             let base = (now - Duration::from_secs(n * DELTA)).unwrap();
-            let mut ga = ExtendedHeaderGenerator::new();
-            ga.set_time(base, Duration::from_secs(DELTA));
-            let a = ga.next_many_empty(n);
-            let mut gf = ExtendedHeaderGenerator::new();
-            gf.set_time(base, Duration::from_secs(DELTA));
-            let f = gf.next_many_empty(n);
-            let world = World { a, f, store: Arc::new(InMemoryStore::new()) };
+            let (a, f) = two_chains(n, base, run % 2 == 1);
+            let world = World { a, f, store: Arc::new(RecStore::new(InMemoryStore::new(), Arc::new(|_| {}))) };
             let wsamp = Duration::from_secs((k - 1) * DELTA + DELTA / 2);
             tw.emit(json!({"name": "reset", "run": run, "now": n}));
 
@@ -106,13 +104,13 @@ pub fn record(args: &Args) {
                     segs.insert(0, (lo, hi));
                 }
                 for (lo, hi) in &segs {
-                    world.store.insert((*lo..=*hi).map(|h| world.a(h)).collect::<Vec<_>>()).await.unwrap();
+                    world.store.inner.insert((*lo..=*hi).map(|h| world.a(h)).collect::<Vec<_>>()).await.unwrap();
                 }
                 // sampled marks and pruning (the pruner's guarantee is respected: see `prunable`)
                 for (lo, hi) in &segs {
                     for h in *lo..=*hi {
                         if rng.gen_bool(0.5) {
-                            world.store.mark_as_sampled(h).await.unwrap();
+                            world.store.inner.mark_as_sampled(h).await.unwrap();
                         }
                     }
                 }
@@ -122,7 +120,7 @@ pub fn record(args: &Args) {
                         for (lo, hi) in &segs {
                             for h in *lo..=*hi {
                                 if n - h >= k {
-                                    world.store.remove_height(h).await.unwrap();
+                                    world.store.inner.remove_height(h).await.unwrap();
                                 }
                             }
                         }
@@ -152,7 +150,7 @@ pub fn record(args: &Args) {
             let mut cur_kind = Kind::Ok;
             let mut cur_batch: Option<(u64, u64)> = None;
             let mut failed_seen = false;
-            let (mut n_fetch, mut n_prune, mut n_foreign, mut n_disc) = (0u64, 0u64, 0u64, 0u64);
+            let (mut n_fetch, mut n_prune, mut n_foreign, mut n_disc, mut n_race) = (0u64, 0u64, 0u64, 0u64, 0u64);
             let mut fatal = false;
             let total_steps = steps + 400; // honest tail
             let mut idle = 0;
@@ -268,6 +266,35 @@ pub fn record(args: &Args) {
                                 tw.emit(json!({"name": "headsub", "h": net_head, "st": world.snapshot(Some(&syncer)).await}));
                             }
                         }
+                        3 | 4 | 5 | 6 if mode != "c38" && connected && has_sub && net_head < n && cur_batch.is_none() && rng.gen_bool(0.5) => {
+                            // the pruner strikes *inside* the syncer's fetch_next_batch (which runs after every
+                            // header-sub message): between its reads of the stored and the pruned ranges, or right
+                            // before it looks at the header above the batch.  The removal itself is one the pruner
+                            // may do (a header outside the windows).
+                            let stored = world.store.inner.get_stored_header_ranges().await.unwrap();
+                            let tail = stored.as_ref().last().map(|r| *r.start()).unwrap_or(0);
+                            let old_max = n.saturating_sub(k);
+                            if rng.gen_bool(0.5) {
+                                if tail >= 1 && tail <= old_max {
+                                    world.store.arm(Point::BetweenRangeReads, tail);
+                                }
+                            } else if old_max >= 1 {
+                                world.store.arm(Point::HeightRead, old_max);
+                            }
+                            net_head += 1;
+                            tw.emit(json!({"name": "newblock", "netHead": net_head}));
+                            handle.announce_new_head(world.a(net_head));
+                            settle().await;
+                            *world.store.armed.lock().unwrap() = None;
+                            let struck: Vec<u64> = world.store.injected.lock().unwrap().drain(..).collect();
+                            let st = world.snapshot(Some(&syncer)).await;
+                            for h in struck {
+                                n_prune += 1;
+                                n_race += 1;
+                                tw.emit(json!({"name": "prune", "h": h, "race": 1, "st": st.clone()}));
+                            }
+                            tw.emit(json!({"name": "headsub", "h": net_head, "st": st}));
+                        }
                         5 | 6 if mode != "c38" => {
                             if let Some(h) = try_prune(&world, &mut rng, n, k, false).await {
                                 n_prune += 1;
@@ -275,10 +302,10 @@ pub fn record(args: &Args) {
                             }
                         }
                         7 if mode != "c38" => {
-                            let stored = world.store.get_stored_header_ranges().await.unwrap();
+                            let stored = world.store.inner.get_stored_header_ranges().await.unwrap();
                             if let Some(r) = stored.as_ref().iter().next() {
                                 let h = rng.gen_range(*r.start()..=*r.end());
-                                world.store.mark_as_sampled(h).await.unwrap();
+                                world.store.inner.mark_as_sampled(h).await.unwrap();
                                 tw.emit(json!({"name": "mark", "h": h, "st": world.snapshot(Some(&syncer)).await}));
                             }
                         }
@@ -338,7 +365,7 @@ pub fn record(args: &Args) {
             let nontrivial = n_fetch >= 3 && (n_prune >= 1 || n_foreign >= 1 || n_disc >= 1);
             for p in ["C25", "C38", "C24"] {
                 sum.case(p, if nontrivial { Some(format!("{mode}/{run}")) } else { None },
-                         || json!({"mode": mode, "n": n, "batch": batch, "wsamp": k, "fetches": n_fetch, "prunes": n_prune,
+                         || json!({"mode": mode, "n": n, "batch": batch, "wsamp": k, "fetches": n_fetch, "prunes": n_prune, "racing_prunes": n_race,
                                    "foreign_answers": n_foreign, "disconnects": n_disc}));
             }
         }
@@ -352,9 +379,9 @@ pub fn record(args: &Args) {
 /// anything; inside it only sampled headers that are not an edge of the synced ranges.
 /// `edge_bias`: prefer the tail of the top stored range (the interesting case for C25).
 async fn try_prune(world: &World, rng: &mut StdRng, n: u64, k: u64, edge_bias: bool) -> Option<u64> {
-    let stored = world.store.get_stored_header_ranges().await.unwrap();
-    let pruned = world.store.get_pruned_ranges().await.unwrap();
-    let sampled = world.store.get_sampled_ranges().await.unwrap();
+    let stored = world.store.inner.get_stored_header_ranges().await.unwrap();
+    let pruned = world.store.inner.get_pruned_ranges().await.unwrap();
+    let sampled = world.store.inner.get_sampled_ranges().await.unwrap();
     let synced = pruned + &stored;
     let edges: Vec<u64> = synced.as_ref().iter().flat_map(|r| [*r.start(), *r.end()]).collect();
     let in_window = |h: u64| n - h < k;
@@ -374,7 +401,7 @@ async fn try_prune(world: &World, rng: &mut StdRng, n: u64, k: u64, edge_bias: b
         Some(t) if (edge_bias || rng.gen_bool(0.5)) && cands.contains(&t) => t,
         _ => cands[rng.gen_range(0..cands.len())],
     };
-    world.store.remove_height(h).await.unwrap();
+    world.store.inner.remove_height(h).await.unwrap();
     Some(h)
 }
 
@@ -382,7 +409,7 @@ async fn try_prune(world: &World, rng: &mut StdRng, n: u64, k: u64, edge_bias: b
 async fn drain_events(
     sub: &mut EventSubscriber,
     world: &World,
-    syncer: &VSyncer<InMemoryStore>,
+    syncer: &VSyncer<SStore>,
     tw: &mut TraceWriter,
     cur_batch: &mut Option<(u64, u64)>,
     cur_kind: &mut Kind,
@@ -486,13 +513,13 @@ pub fn record_aging(args: &Args) {
             let mut ga = ExtendedHeaderGenerator::new();
             ga.set_time(base, Duration::from_secs(delta));
             let a = ga.next_many_empty(n);
-            let world = World { a, f: vec![], store: Arc::new(InMemoryStore::new()) };
+            let world = World { a, f: vec![], store: Arc::new(RecStore::new(InMemoryStore::new(), Arc::new(|_| {}))) };
             let wsamp = Duration::from_millis(((k - 1) * delta) * 1000 + delta * 500);
             let mut cur = clock(true);
             tw.emit(json!({"name": "reset", "run": run, "now": cur}));
             // the tail of the stored range is the oldest header still inside the window
             let tail = n - (k - 1);
-            world.store.insert((tail..=n).map(|h| world.a(h)).collect::<Vec<_>>()).await.unwrap();
+            world.store.inner.insert((tail..=n).map(|h| world.a(h)).collect::<Vec<_>>()).await.unwrap();
             tw.emit(json!({"name": "prefill", "netHead": n, "st": world.snapshot(None).await}));
             let (p2p, mut handle) = w::mocked_p2p();
             let events = Events::new();
@@ -574,6 +601,33 @@ pub fn record_aging(args: &Args) {
 
 /// spec -> impl: environment schedules generated by TLC (Gen_Syncer, simulation of Syncer.tla) are
 /// performed on the real Syncer; what happens is recorded for Trace_Syncer like in `record`.
+/// The honest chain and a foreign chain of the same heights and times.  The foreign chain is either signed by
+/// another validator, or (`same_key`) a fork signed by the SAME validator: every header of it is then a valid
+/// non-adjacent successor / predecessor of honest headers, only the hash links tell the chains apart.
+pub fn two_chains(n: u64, base: Time, same_key: bool) -> (Vec<ExtendedHeader>, Vec<ExtendedHeader>) {
+    let mut ga = ExtendedHeaderGenerator::new();
+    ga.set_time(base, Duration::from_secs(DELTA));
+    if !same_key {
+        let a = ga.next_many_empty(n);
+        let mut gf = ExtendedHeaderGenerator::new();
+        gf.set_time(base, Duration::from_secs(DELTA));
+        return (a, gf.next_many_empty(n));
+    }
+    let (mut a, mut f): (Vec<ExtendedHeader>, Vec<ExtendedHeader>) = (vec![], vec![]);
+    for i in 0..n as usize {
+        let h = ga.next_many_empty(1).pop().unwrap();
+        let snap = ga.fork(); // its spoofed clock now shows h's time
+        let fh = match std::panic::catch_unwind(std::panic::AssertUnwindSafe(|| if i == 0 { snap.another_of(&h) } else { snap.next_of(&f[i - 1]) })) {
+            Ok(x) => x,
+            Err(e) => { eprintln!("two_chains: generator panicked at i={i}: {:?}", e.downcast_ref::<String>()); std::process::exit(3) }
+        };
+        if !(fh.hash() != h.hash() && fh.height() == h.height()) { eprintln!("two_chains: bad fork header at i={i}: {} vs {}", fh.height(), h.height()); std::process::exit(3) }
+        f.push(fh);
+        a.push(h);
+    }
+    (a, f)
+}
+
 pub fn replay(args: &Args) {
     let cases = h_common::read_cases(args.pos(2));
     let n = args.opt_u64("n", 10);
@@ -588,13 +642,8 @@ pub fn replay(args: &Args) {
         for (ci, c) in cases.iter().enumerate() {
             let now = Time::now();
             let base = (now - Duration::from_secs(n * DELTA)).unwrap();
-            let mut ga = ExtendedHeaderGenerator::new();
-            ga.set_time(base, Duration::from_secs(DELTA));
-            let a = ga.next_many_empty(n);
-            let mut gf = ExtendedHeaderGenerator::new();
-            gf.set_time(base, Duration::from_secs(DELTA));
-            let f = gf.next_many_empty(n);
-            let world = World { a, f, store: Arc::new(InMemoryStore::new()) };
+            let (a, f) = two_chains(n, base, ci % 2 == 1);
+            let world = World { a, f, store: Arc::new(RecStore::new(InMemoryStore::new(), Arc::new(|_| {}))) };
             let wsamp = Duration::from_secs((k - 1) * DELTA + DELTA / 2);
             tw.emit(json!({"name": "reset", "run": ci, "now": n}));
             let ops = c["ops"].as_array().unwrap();
@@ -679,14 +728,14 @@ pub fn replay(args: &Args) {
                         tw.emit(json!({"name": "headsub", "h": net_head, "st": world.snapshot(Some(&syncer)).await}));
                     }
                     "prune" => {
-                        if world.store.has_at(h).await {
-                            world.store.remove_height(h).await.unwrap();
+                        if world.store.inner.has_at(h).await {
+                            world.store.inner.remove_height(h).await.unwrap();
                             tw.emit(json!({"name": "prune", "h": h, "st": world.snapshot(Some(&syncer)).await}));
                         }
                     }
                     "mark" => {
-                        if world.store.has_at(h).await {
-                            world.store.mark_as_sampled(h).await.unwrap();
+                        if world.store.inner.has_at(h).await {
+                            world.store.inner.mark_as_sampled(h).await.unwrap();
                             tw.emit(json!({"name": "mark", "h": h, "st": world.snapshot(Some(&syncer)).await}));
                         }
                     }
